@@ -78,6 +78,10 @@ func (b *RingUnbounded[T]) process() {
 			if len(vs) == 0 && !b.closed {
 				b.closedMutex.RUnlock()
 				b.cond.Wait()
+				// vs was read before waiting (and is empty); a Write followed by Close may have happened
+				// while waiting, so read the ring again instead of deciding with the stale vs
+				b.rrm.Unlock()
+				continue
 			} else {
 				b.closedMutex.RUnlock()
 			}
